@@ -67,10 +67,21 @@ def parse_template(template):
 
 
 def match_template(segs, path):
-    """-> (True, kwargs) | (False, None) | (None, None) when the model declines to decide."""
-    if not path.startswith('/') or path.startswith('//'):
+    """-> (True, kwargs) | (False, None) | (None, None) when the model declines to decide.
+
+    A path starting with several slashes: neither this property nor C01 says whether the extra leading slashes
+    belong to the first segment(s) or are dropped.  Both readings are evaluated; the model only decides when
+    they agree (e.g. no template can match under either)."""
+    if not path.startswith('/'):
         return None, None
-    psegs = path[1:].split('/')
+    if path.startswith('//'):
+        a = _match_segments(segs, path[1:].split('/'))
+        b = _match_segments(segs, path.lstrip('/').split('/'))
+        return a if a == b else (None, None)
+    return _match_segments(segs, path[1:].split('/'))
+
+
+def _match_segments(segs, psegs):
     if len(psegs) != len(segs):
         return False, None
     kwargs = {}
